@@ -149,6 +149,66 @@ func (w *World) ProduceBlock(dtSec int, miss []int) {
 	}
 	h := w.N().Header.Height
 	w.St.Blocks++
+	// a node crash inside the block: the process dies at a chosen stage, restarts from what is durable
+	// (the last commit) and re-executes the block from its beginning, as Tendermint's handshake does
+	crashStage := -1
+	if w.MidCrash != nil {
+		due := 0
+		for _, tx := range w.Mempool {
+			if tx.DeliverAt <= h {
+				due++
+			}
+		}
+		crashStage = w.MidCrash.Pick % (due + 2)
+	}
+	midCrash := func(stage int) bool {
+		if stage != crashStage || w.MidCrash == nil {
+			return true
+		}
+		mc := w.MidCrash
+		w.MidCrash = nil
+		i := mc.Node % len(w.Nodes)
+		n := w.Nodes[i]
+		w.St.Fault("node_crash_mid_block")
+		w.Logf("h=%d node %d crashes at stage %d and re-executes the block", h, i, stage)
+		n.Restart()
+		resp, c := n.BeginBlock(w.Now, votes, proposer)
+		if c != nil {
+			w.Crash = c
+			w.St.Inc("crash:" + c.Kind + ":" + c.Call)
+			return false
+		}
+		if !w.isFork(i) && eventsDigest(resp.Events) != w.beginDigest {
+			w.noteMismatch("events", fmt.Sprintf("BeginBlock events differ when node %d re-executes height %d after a crash", i, h))
+		}
+		for j := range w.LastBlockTxs {
+			r, c := n.DeliverTx(w.LastBlockTxs[j].Tx.Bytes)
+			if c != nil {
+				w.Crash = c
+				w.St.Inc("crash:" + c.Kind + ":" + c.Call)
+				return false
+			}
+			r0 := w.LastBlockTxs[j].Res
+			if r.Code != r0.Code || (!w.isFork(i) && (eventsDigest(r.Events) != eventsDigest(r0.Events) || !bytes.Equal(r.Data, r0.Data))) {
+				w.noteMismatch("codes", fmt.Sprintf("tx %d answers differently when node %d re-executes height %d after a crash: code %d vs %d", j, i, h, r.Code, r0.Code))
+			}
+		}
+		if stage == len(w.LastBlockTxs)+1 && mc.AfterEnd {
+			resp, c := n.EndBlock()
+			if c != nil {
+				w.Crash = c
+				w.St.Inc("crash:" + c.Kind + ":" + c.Call)
+				return false
+			}
+			if !w.isFork(i) && eventsDigest(resp.Events) != w.endDigest {
+				w.noteMismatch("events", fmt.Sprintf("EndBlock events differ when node %d re-executes height %d after a crash", i, h))
+			}
+		}
+		return true
+	}
+	if !midCrash(0) {
+		return
+	}
 	for _, o := range w.activeOracles() {
 		o.AfterBegin(w)
 		if w.Stopped() {
@@ -204,6 +264,9 @@ func (w *World) ProduceBlock(dtSec int, miss []int) {
 				return
 			}
 		}
+		if !midCrash(len(w.LastBlockTxs)) {
+			return
+		}
 	}
 
 	w.capturePreEnd()
@@ -219,6 +282,12 @@ func (w *World) ProduceBlock(dtSec int, miss []int) {
 			w.endDigest = eventsDigest(resp.Events)
 		} else if d := eventsDigest(resp.Events); d != w.endDigest && !w.isFork(i) {
 			w.noteMismatch("events", fmt.Sprintf("EndBlock events differ on replica %d at height %d", i, h))
+		}
+	}
+	if crashStage == len(w.LastBlockTxs)+1 && w.MidCrash != nil {
+		w.MidCrash.AfterEnd = true
+		if !midCrash(crashStage) {
+			return
 		}
 	}
 	w.checkByzantineBound()
